@@ -1,6 +1,6 @@
 """C12 - consumers exist exactly while they hold allocations."""
 import json
-from pv import histrun, monitors
+from pv import conc, histrun, monitors
 from pv.client import Req
 from pv.gen.failplace import FailPlace
 from pv.gen.history import HistoryGen, Names
@@ -16,9 +16,11 @@ META = {
             'probes on a snapshot; distinct = (route, microversion band, '
             'transition in {create, update, empty, empty-new, delete, '
             'rejected-first})',
-    'floors': {'attribute_checks': 100, 'rejected_first_writes': 5,
+    'floors': {'concurrent_schedules': 100,
+               'attribute_checks': 100, 'rejected_first_writes': 5,
                'null_generation_probes_accepted': 5},
-    'assumptions': ['SQLite backend', 'sequential requests',
+    'assumptions': ['SQLite backend', 'sequential histories + committed-state sequences of '
+                    'transaction-level interleavings of request pairs/triples',
                     'a write below 1.8 to an existing consumer may keep or '
                     'replace project/user by the placeholders (both '
                     'admitted)'],
@@ -33,13 +35,43 @@ WEIGHTS = {'put_alloc': 20, 'post_allocs': 10, 'delete_alloc': 6,
            'post_rc': 2, 'put_rc': 0, 'delete_rc': 0}
 
 
+CONC = conc.invariant_scenarios(include_tree=False)
+
+
 def plan(tier, seed, scale):
-    return histrun.plan_seeds(tier, seed, scale, 320, 6400,
+    shards = histrun.plan_seeds(tier, seed, scale, 320, 6400,
                               20 if tier == 'quick' else 100,
                               extra={'steps': 60 if tier == 'quick' else 80})
+    n = max(1, int(len(CONC) * min(scale, 1)))
+    for sh in conc.plan_scenarios(n, tier, seed, per=max(1, (n + 7) // 8)):
+        sh['conc'] = True
+        shards.append(sh)
+    return shards
+
+
+def conc_shard(spec, res):
+    def at_end(d0, final, reqs, results, wit):
+        held = {c for (c, _, _) in final.allocs}
+        rows = set(final.consumers)
+        res.count('concurrent_final_states_checked')
+        for c in rows - held:
+            res.violation(
+                'C12|consumer-without-allocations|concurrent|%s' %
+                wit['scenario'],
+                '[%s]: consumer %s has a record but holds nothing' % (
+                    wit['transaction_order'], c), wit)
+        for c in held - rows:
+            res.violation(
+                'C12|allocations-without-consumer|concurrent|%s' %
+                wit['scenario'],
+                '[%s]: consumer %s holds allocations without a record' % (
+                    wit['transaction_order'], c), wit)
+    conc.run_invariants('C12', CONC, spec, res, at_end=at_end)
 
 
 def run_shard(spec, res):
+    if spec.get('conc'):
+        return conc_shard(spec, res)
     import random
     crng = random.Random('conf/%s/%s' % (spec['seed'], spec['first']))
     pp = 'incomplete-pj-%d' % crng.randrange(1000)
